@@ -160,10 +160,15 @@ def run_cases(chk, binp, cases, pf_ok, pf):
     chk.assumptions = ["location accuracy is checked only where the property claims it (no single-schema items, no schema dependencies)"]
 
 
+def focus(chk):
+    from .. import focusgen as F
+    return F.cases(chk.seed + 2007, 1800 if chk.tier == "quick" else 60000)
+
+
 def run(chk):
     pf_ok, pf = C.proof_obligations("C17")
     binp = C.build_harness("verif")
-    cases = R.corpus_cases("C17") + R.corpus_cases("C01") + R.suite_cases() + R.generate(binp, chk.seed + 2000, N[chk.tier], chk.tier)
+    cases = R.corpus_cases("C17") + R.corpus_cases("C01") + R.suite_cases() + focus(chk) + R.generate(binp, chk.seed + 2000, N[chk.tier], chk.tier)
     run_cases(chk, binp, cases, pf_ok, pf)
 
 
